@@ -120,7 +120,9 @@ fn residue_sensitive(kind: &str) -> bool { matches!(kind, "rsi" | "my_rsi" | "vs
 fn no_skip() -> bool { std::env::var("PROBE_NO_SKIP").is_ok() }
 fn degenerate_step(kind: &str, h: &[f64], t: usize, n: usize) -> bool {
     if no_skip() { return false; }
-    residue_sensitive(kind) && near_flat(win(&h[..=t], n.max(min_n(kind)))) && !flat(&h[..=t])
+    // change-based views look one value further back (N changes need N + 1 values): their window is flat only if those N + 1 values are
+    let k = n.max(min_n(kind)) + if matches!(kind, "rsi" | "my_rsi") { 1 } else { 0 };
+    residue_sensitive(kind) && near_flat(win(&h[..=t], k)) && !flat(&h[..=t])
 }
 fn win(h: &[f64], n: usize) -> &[f64] { &h[h.len().saturating_sub(n)..] }
 fn fmin(w: &[f64]) -> f64 { w.iter().cloned().fold(f64::INFINITY, f64::min) }
@@ -548,11 +550,16 @@ fn check_stability(kind: &str, n: usize, h: &[f64], h2: &[f64]) -> Option<String
 }
 fn check_determinism(kind: &str, inner: &str, n: usize, h: &[f64]) -> Option<String> {
     let mut v = make(kind, make(inner, echo(), n), n); let mut w = make(kind, make(inner, echo(), n), n);
+    // u1, u2: twins whose last() is called only now and then (an observed and a rarely observed instance must agree: last() changes nothing)
+    let mut u1 = make(kind, make(inner, echo(), n), n); let mut u2 = make(kind, make(inner, echo(), n), n);
     let cut = h.len() / 2; let mut cl: Option<Dyn> = None; let mut orig_after = vec![];
     for (t, &x) in h.iter().enumerate() {
-        v.update(x); w.update(x);
+        v.update(x); w.update(x); u1.update(x); u2.update(x);
         let a = v.last(); for _ in 0..3 { if v.last().map(f64::to_bits) != a.map(f64::to_bits) { return Some(format!("step {t}: repeated last() differs")); } }
         if a.map(f64::to_bits) != w.last().map(f64::to_bits) { return Some(format!("step {t}: two identical instances disagree")); }
+        let hsh = (t as u64 + 1).wrapping_mul(0x9E3779B97F4A7C15) >> 61;
+        if hsh % 3 == 0 && u1.last().map(f64::to_bits) != a.map(f64::to_bits) { return Some(format!("step {t}: an instance whose last() was called at every step and one that was polled rarely disagree")); }
+        if t % 2 == 1 && u2.last().map(f64::to_bits) != a.map(f64::to_bits) { return Some(format!("step {t}: an instance whose last() was called at every step and one polled at every other step disagree")); }
         if t == cut { cl = Some(v.clone()); }
         if t > cut { orig_after.push(a); }
     }
